@@ -247,7 +247,7 @@ fn tokenize(text: &str) -> Vec<String> {
 
 fn c11_c12(args: &Args, prop: &'static str) -> ! {
     let rule11 = "differential against a hand-written reference recogniser of the documented grammar: (1) every interface name of length<=8 (quick 7) over {a,B,1,-,.}; (2) every type expression of <=6 (quick 5) tokens over {[], [string], ?, int, T, (), (a), (a: int), (, )}; (3) every field/enum-member name of length<=6 (quick 5) over {a,A,1,_}; (4) every member-level token sequence of length<=7 (quick 5) over {method,type,error,Name,(,),->,a: int,comma,NL,comment,SP} after a valid header; (5) every trivia string {SP,TAB,NL,CRLF,CR,U+2028,comment} inserted at every token boundary of 6 valid texts, and every single-token deletion / duplication / adjacent swap of them; (6) all pairs and triples of members over kinds {method,type,error} with equal/distinct names; oracle (through IDL::try_from and, with identical verdict, through the deprecated IDL::from_string): same accept/reject, equal canonical structure (names, kinds per-kind order, fields, types, docs), duplicate errors name exactly the duplicated names; non-trivial = distinct text";
-    let rule12 = "every input of the C11 enumerations that is rejected, plus every prefix of every corpus definition (*.varlink in the repository), every string of length<=5 (quick 4) over a 24-symbol alphabet covering each lexical class (CR, LF, U+2028, U+2029, U+00A0, a 4-byte char, #, keywords, brackets), a line-ending x error-position matrix, syntax errors at columns up to 200000 (lines longer than any 16-bit width), and type nesting depth 1..=200 for [], ?[], [string], structs and enums (on the main stack and on a 2 MiB thread): parsing returns (no panic), a Parse error's line is a line of the input and its column lies in 1..=chars(line)+1, every error renders with Display and the rendering contains the line; non-trivial = distinct rejected input";
+    let rule12 = "every input of the C11 enumerations that is rejected, plus every prefix of every corpus definition (*.varlink in the repository), every string of length<=5 (quick 4) over a 24-symbol alphabet covering each lexical class (CR, LF, U+2028, U+2029, U+00A0, a 4-byte char, #, keywords, brackets), a line-ending x error-position matrix, syntax errors at columns up to 200000 (lines longer than any 16-bit width), and type nesting depth 1..=200 for [], ?[], [string], structs, optional structs (valid, truncated, with an error in the innermost one) and enums (on the main stack and on a 2 MiB thread): parsing returns (no panic), a Parse error's line is a line of the input and its column lies in 1..=chars(line)+1, every error renders with Display and the rendering contains the line; non-trivial = distinct rejected input";
     let mut rep = Report::new(prop, if prop == "C11" { rule11 } else { rule12 });
     let thorough = args.thorough();
     let mut cx = Ctx { rep: &mut rep, args, prop, idx: 0, replay: args.replay_case() };
@@ -448,6 +448,11 @@ fn c11_c12(args: &Args, prop: &'static str) -> ! {
                 format!("{}int{}", "(a: ".repeat(d), ")".repeat(d)),
                 format!("{}(x, y){}", "(a: []".repeat(d), ")".repeat(d)),
                 format!("{}int", "(a: ".repeat(d)), // unclosed
+                // optional structs: valid, truncated, and with an error in the innermost one
+                format!("{}int{}", "?(a: ".repeat(d), ")".repeat(d)),
+                format!("{}int", "?(a: ".repeat(d)),
+                format!("{}int !{}", "?(a: ".repeat(d), ")".repeat(d)),
+                format!("{}{}", "?[](a: ?(b: ".repeat(d), "))".repeat(d)),
             ];
             for s in shapes {
                 let text = format!("interface a.b\nmethod A(x: {}) -> ()\n", s);
